@@ -4,6 +4,7 @@ import (
 	"bytes"
 	"fmt"
 	"go/format"
+	"go/token"
 	"regexp"
 	"sort"
 	"strings"
@@ -19,7 +20,7 @@ func init() {
 		ID:    "C03",
 		Level: "exploration",
 		Rule: "cases: corpus files under formatting transforms (identity, CRLF line endings, BOM prefix, tabs->spaces, indentation stripped, trailing whitespace added, blank lines " +
-			"doubled, blank lines removed, whitespace-only blank lines), the non-canonical corpus files as they are, and seeded comment/blank-line insertions WITHOUT canonicalisation. " +
+			"doubled, blank lines removed, whitespace-only blank lines), the non-canonical corpus files as they are, seeded comment/blank-line insertions WITHOUT canonicalisation, and an own-line / block / end-of-line comment placed before every token of the construct snippets in turn. " +
 			"Oracle (go/scanner + go/format, independent of dst): output parses; token sequence (kind + literal text; semicolons and optional trailing commas ignored) equals that of " +
 			"gofmt(input); comment sequence (whitespace-insensitive) equals gofmt's, or - where gofmt itself rewrote doc-comment text - equals the input's with the classes gofmt " +
 			"reorders filtered out. distinct_nontrivial = distinct transformed inputs that differ from their gofmt form and contain a comment.",
@@ -346,18 +347,47 @@ func runC03(c *fw.Ctx) {
 		}
 	}
 	zoo := layoutZoo()
-	zi := 0
-	for k, src := range zoo {
-		zi++
-		if !c.Mine(zi + len(k)) {
+	var zkeys []string
+	for k := range zoo {
+		zkeys = append(zkeys, k)
+	}
+	sortStrings(zkeys)
+	for zi, k := range zkeys {
+		if !c.Mine(zi) {
 			continue
 		}
+		src := zoo[k]
 		for _, tr := range c03Transforms {
 			in := c03Transform(tr, []byte(src))
 			if !corpus.Parses(in) {
 				continue
 			}
 			c03Check(c, "zoo:"+k+"/"+tr, tr, in, []byte(src))
+		}
+	}
+	// every token boundary of the construct snippets: an own-line comment, a block comment and an
+	// end-of-line comment placed directly before each token in turn (no canonicalisation)
+	gi := 0
+	for _, k := range zkeys {
+		src := []byte(zoo[k])
+		toks, _ := obs.Scan(src)
+		for ti, t := range toks {
+			if t.Tok == token.SEMICOLON && t.Lit == "\n" {
+				continue
+			}
+			for vi, ins := range []string{"\n// own-line\n", "/*blk*/ ", "// eol\n"} {
+				i := gi
+				gi++
+				if !c.Mine(i) || (c.Quick() && (ti+vi+len(k))%3 != 0) {
+					continue
+				}
+				in := append(append(append([]byte{}, src[:t.Off]...), ins...), src[t.Off:]...)
+				if !corpus.Parses(in) {
+					c.Count("inconclusive:mutation-breaks-parse", 1)
+					continue
+				}
+				c03Check(c, fmt.Sprintf("tokgap:%s/%d/%d", k, ti, vi), "token-gap-comment", in, src)
+			}
 		}
 	}
 	if c.Shard == 0 {
